@@ -92,11 +92,25 @@ structure St where
   winner : Option Nat
   /-- ghost: decrements that did not run `Drop for SharedFd` (no wake test) -/
   rawDecs : Nat
+  /-- identity of the waker stored in the `WakerSlot` (meaningful while `slot` is `some`) -/
+  slotW : Nat
+  /-- per closer: the waker (task) that will poll the future next (`setWaker`: the future is handed to
+  another task / polled through another combinator); default 0 -/
+  nextW : List (Nat × Nat)
+  /-- ghost, per closer: the waker supplied by the poll that parked it (= its latest poll while parked) -/
+  parkedW : List (Nat × Nat)
+  /-- (closer, waker) pairs woken since the start of that closer's last poll -/
+  wokenW : List (Nat × Nat)
+  /-- ghost: every `Waker::wake` so far, oldest first: (closer that registered it, waker id) -/
+  wakeLog : List (Nat × Nat)
   deriving Repr
+
+def wOf (l : List (Nat × Nat)) (c : Nat) : Nat := (l.lookup c).getD 0
 
 def init (sync : Bool) : St :=
   { sync, actors := [.handle .live], count := 1, waits := false, slot := none, woken := [],
-    wakes := 0, released := 0, delivered := 0, winner := none, rawDecs := 0 }
+    wakes := 0, released := 0, delivered := 0, winner := none, rawDecs := 0, slotW := 0, nextW := [],
+    parkedW := [], wokenW := [], wakeLog := [] }
 
 inductive Ev where
   | clone (h : Nat)       -- `Clone for SharedFd` on a live handle: new handle
@@ -115,6 +129,7 @@ inductive Ev where
   | pTry2 (c : Nat)
   | pBegin (c : Nat)
   | dropFut (c : Nat)     -- the closer's future is dropped
+  | setWaker (c w : Nat)  -- between polls: the closer's future will be polled with waker `w` from now on
   deriving DecidableEq, Repr
 
 def setRole (s : St) (i : Nat) (r : Role) : St := { s with actors := s.actors.set i r }
@@ -122,7 +137,9 @@ def setRole (s : St) (i : Nat) (r : Role) : St := { s with actors := s.actors.se
 /-- `WakerSlot::wake`: take the stored waker, wake it -/
 def wake (s : St) : St :=
   match s.slot with
-  | some c => { s with slot := none, woken := c :: s.woken, wakes := s.wakes + 1 }
+  | some c =>
+    { s with slot := none, woken := c :: s.woken, wakes := s.wakes + 1,
+             wokenW := (c, s.slotW) :: s.wokenW, wakeLog := s.wakeLog ++ [(c, s.slotW)] }
   | none => s
 
 /-- the test at the top of `Drop for SharedFd` -/
@@ -137,7 +154,8 @@ def decRef (s : St) : St :=
 def deliver (s : St) : St :=
   { s with count := 0, released := s.released + 1, delivered := s.delivered + 1 }
 
-def clearWoken (s : St) (c : Nat) : St := { s with woken := s.woken.filter (· != c) }
+def clearWoken (s : St) (c : Nat) : St :=
+  { s with woken := s.woken.filter (· != c), wokenW := s.wokenW.filter (·.1 != c) }
 
 def stepClone (s : St) (h : Nat) : Option St :=
   match s.actors[h]? with
@@ -198,17 +216,21 @@ def loseNone (s : St) (c : Nat) : St :=
 def tryUnwrap1 (s : St) (c : Nat) : St :=
   if s.count = 1 then deliver (setRole s c (.closer .doneSome)) else setRole s c (.closer .reg)
 
-def register (s : St) (c : Nat) : St := setRole { s with slot := some c } c (.closer .try2)
+/-- `this.waker.register(cx.waker())`: on EVERY poll that finds the descriptor still shared -/
+def register (s : St) (c : Nat) : St :=
+  setRole { s with slot := some c, slotW := wOf s.nextW c } c (.closer .try2)
 
 def tryUnwrap2 (s : St) (c : Nat) : St :=
-  if s.count = 1 then deliver (setRole s c (.closer .doneSome)) else setRole s c (.closer .parked)
+  if s.count = 1 then deliver (setRole s c (.closer .doneSome))
+  else setRole { s with parkedW := (c, wOf s.nextW c) :: s.parkedW } c (.closer .parked)
 
 def beginPoll (s : St) (c : Nat) : St := setRole (clearWoken s c) c (.closer .try1)
 
 /-- the rest of a poll from `try1`, as one step -/
 def pollBody (s : St) (c : Nat) : St :=
   if s.count = 1 then deliver (setRole s c (.closer .doneSome))
-  else setRole { s with slot := some c } c (.closer .parked)
+  else setRole { s with slot := some c, slotW := wOf s.nextW c, parkedW := (c, wOf s.nextW c) :: s.parkedW }
+    c (.closer .parked)
 
 def firstPoll (s : St) (c : Nat) : St :=
   if s.waits then loseNone s c
@@ -243,6 +265,14 @@ def stepDropFut (s : St) (c : Nat) : Option St :=
   | some (.closer .wrapped) => some (setRole s c (.closer .leaked))
   | _ => none
 
+/-- the pending future changes hands; only between polls (the waker of a running poll is fixed) -/
+def stepSetWaker (s : St) (c w : Nat) : Option St :=
+  match s.actors[c]? with
+  | some (.closer .created) => some { s with nextW := (c, w) :: s.nextW }
+  | some (.closer .wrapped) => some { s with nextW := (c, w) :: s.nextW }
+  | some (.closer .parked) => some { s with nextW := (c, w) :: s.nextW }
+  | _ => none
+
 def step (s : St) : Ev → Option St
   | .clone h => stepClone s h
   | .opStart h => stepOpStart s h
@@ -260,6 +290,7 @@ def step (s : St) : Ev → Option St
   | .pTry2 c => stepMicro s c .try2 tryUnwrap2
   | .pBegin c => stepMicro s c .parked beginPoll
   | .dropFut c => stepDropFut s c
+  | .setWaker c w => stepSetWaker s c w
 
 def run (s : St) : List Ev → Option St
   | [] => some s
@@ -282,6 +313,7 @@ def Ev.unsync : Ev → Bool
 def Ev.target : Ev → Nat
   | .clone h | .opStart h | .drop h | .dropCheck h | .dropDec h | .tryUnwrap h | .take h | .close h
   | .poll h | .pSwap h | .pNone h | .pTry1 h | .pReg h | .pTry2 h | .pBegin h | .dropFut h => h
+  | .setWaker h _ => h
 
 def St.role (s : St) (i : Nat) : Option Role := s.actors[i]?
 
